@@ -14,19 +14,74 @@ Theorem C07_ring_safe_source_consts : forall n evs s,
   run S_gen CAP_gen (init n) evs = Some s -> Safe S_gen s.
 Proof. intros n evs s. exact (ring_safe S_gen CAP_gen n evs s tie_ring_safe_cond). Qed.
 
-(* Nothing is lost, repeated or reordered; a consumer that did not fail has
-   consumed exactly the produced sequence when both sides are done. *)
+(* The same, stated on the step: the write of EVERY Acquire -- also of the one
+   whose buffer stage 1 later abandons because it found an error in it -- hits
+   a slot that holds no live buffer. *)
+Theorem C07_acquire_safe_source_consts : forall n evs s s',
+  run S_gen CAP_gen (init n) evs = Some s -> step S_gen CAP_gen s Acquire = Some s' ->
+  filling s' = Some (produced s) /\ ring s' (produced s mod S_gen) = produced s /\
+  (forall i, In i (live s) -> ring s' (i mod S_gen) = i /\ i mod S_gen <> produced s mod S_gen).
+Proof. intros n evs s s'. exact (ring_acquire_safe S_gen CAP_gen n evs s s' tie_ring_safe_cond). Qed.
+
+(* Nothing is lost, repeated or reordered.  The SENT buffers are
+   0 .. n_sent evs - 1 (n_sent = number of Send events); all n acquired
+   buffers are sent, except that a producer which fails in its last buffer
+   withholds that one (then n_sent evs + 1 = n).  At every state the consumed
+   buffers are a prefix of the sent ones and, while the consumer has not
+   failed, consumed ++ in-channel = sent; a consumer that did not fail has
+   consumed exactly the sent sequence when both sides are done. *)
 Theorem C07_in_order : forall S CAP n evs s,
   run S CAP (init n) evs = Some s ->
-  consumed s = seq 0 (length (consumed s)) /\ length (consumed s) <= n /\
-  (failed s = false -> final s = true -> consumed s = seq 0 n).
+  consumed s = seq 0 (length (consumed s)) /\
+  length (consumed s) <= n_sent evs /\
+  n_sent evs <= n_acquired evs <= n /\ n_acquired evs <= n_sent evs + 1 /\
+  (failed s = false -> consumed s ++ qids (queue s) = seq 0 (n_sent evs)) /\
+  (failed s = false -> final s = true -> consumed s = seq 0 (n_sent evs)) /\
+  (final s = true -> n_acquired evs = n /\
+                     (producer_abandoned evs = false -> n_sent evs = n) /\
+                     (producer_abandoned evs = true -> n_sent evs + 1 = n)).
 Proof. exact ring_in_order. Qed.
 
-(* No reachable non-final state is stuck (also after either side failed). *)
+(* For a producer that does not fail, as before: all n buffers. *)
+Theorem C07_in_order_no_producer_failure : forall S CAP n evs s,
+  run S CAP (init n) evs = Some s ->
+  failed s = false -> final s = true -> producer_abandoned evs = false ->
+  consumed s = seq 0 n.
+Proof. exact ring_in_order_no_abandon. Qed.
+
+(* No reachable non-final state is stuck (also after either side, or both, failed). *)
 Theorem C07_no_deadlock_source_consts : forall n evs s,
   run S_gen CAP_gen (init n) evs = Some s -> final s = false ->
   exists e, e <> Fail2 /\ In e (enabled S_gen CAP_gen s).
 Proof. intros n evs s. exact (ring_no_deadlock S_gen CAP_gen n evs s tie_cap_positive). Qed.
+
+(* Each side separately: a producer that is not done can make each move its
+   control state allows (send the buffer it holds, acquire the next, or send
+   the terminator -- with the buffer withheld if it holds one) unless the
+   channel is full, and then the consumer can move; a consumer that is not
+   done can move unless it waits on an empty channel with the terminator
+   still to come, and then the producer can move. *)
+Theorem C07_progress_each_source_consts : forall n evs s,
+  run S_gen CAP_gen (init n) evs = Some s ->
+  (term_sent s = false ->
+     (length (queue s) < CAP_gen ->
+        (forall f, filling s = Some f -> In Send (enabled S_gen CAP_gen s)) /\
+        (filling s = None -> produced s < n -> In Acquire (enabled S_gen CAP_gen s)) /\
+        (produced s = n -> In SendTerm (enabled S_gen CAP_gen s))) /\
+     (length (queue s) = CAP_gen ->
+        In RecvWait (enabled S_gen CAP_gen s) \/ In Recv (enabled S_gen CAP_gen s))) /\
+  (finished s = false ->
+     In RecvWait (enabled S_gen CAP_gen s) \/ In Recv (enabled S_gen CAP_gen s) \/
+     (waiting s = true /\ queue s = [] /\ term_sent s = false)).
+Proof. intros n evs s. exact (ring_progress_each S_gen CAP_gen n evs s tie_cap_positive). Qed.
+
+(* From every reachable state (whoever has failed so far) the run can be
+   completed, without a further failure, to a state where both sides are done. *)
+Theorem C07_can_finish_source_consts : forall n evs s,
+  run S_gen CAP_gen (init n) evs = Some s ->
+  exists evs' s', run S_gen CAP_gen (init n) (evs ++ evs') = Some s' /\ final s' = true /\
+                  count_fail2 evs' = 0 /\ length evs' <= mu s.
+Proof. intros n evs s. exact (ring_can_finish S_gen CAP_gen n evs s tie_cap_positive). Qed.
 
 (* Every schedule is finite: at most 4n+4 events. *)
 Theorem C07_terminates : forall S CAP n evs s,
@@ -48,7 +103,11 @@ Theorem C07_refuted_if_capacity_too_large : forall S CAP,
 Proof. exact Ring_refuted. Qed.
 
 Print Assumptions C07_ring_safe_source_consts.
+Print Assumptions C07_acquire_safe_source_consts.
 Print Assumptions C07_in_order.
+Print Assumptions C07_in_order_no_producer_failure.
+Print Assumptions C07_progress_each_source_consts.
+Print Assumptions C07_can_finish_source_consts.
 Print Assumptions C07_no_deadlock_source_consts.
 Print Assumptions C07_terminates.
 Print Assumptions C07_final_empty.
